@@ -6,4 +6,5 @@ CONSTANTS
   FailKinds = {"kl", "kp", "kpi"}
   NVH = 0
   MinReg = 1
+  Renames = TRUE
 INVARIANTS OnlyRegisteredListed NeverTheFailedOne ForcedFirst DisconnectMeansNoneLeft Emit
